@@ -81,6 +81,7 @@ class ItemSpec:
         self.ats = []         # (side, nth, anchor, text, line)
         self.dropfields = []
         self.refself = False
+        self.stub = False
         self.raw = None       # (text, line) for @raw blocks
 
 
@@ -131,6 +132,11 @@ def parse_overlay(path):
                     cur.dropfields += arg.split()
                 elif d == 'refself':
                     cur.refself = True
+                elif d == 'stub':
+                    # assumed contract whose body is not even compiled (it calls code outside the unit):
+                    # the body is dropped and replaced by unimplemented!(); reported as dropped.
+                    cur.assume = True
+                    cur.stub = True
                 elif d == 'raw':
                     cur = ItemSpec(path, n)
                     cur.file, cur.module = curfile, curmod
@@ -252,6 +258,10 @@ def splice_item(asm, spec, probe=False):
             # region of code... doc comments are comments in the mask; attrs
             # are code.  Both are safe to drop by regex at line starts.
             dels.append((m.start(), m.end(), name))
+    if spec.stub:
+        if it.kind != 'fn' or it.body_open is None:
+            raise Unsupported('@stub on an item without a body: %s' % spec.selector)
+        dels.append((it.body_open - base + 1, it.body_close - base, 'body-of-assumed-item'))
     for fname in spec.dropfields:
         if it.kind != 'struct' or it.body_open is None:
             raise Unsupported('@dropfield on a non-struct item %s' % spec.selector)
@@ -350,6 +360,8 @@ def splice_item(asm, spec, probe=False):
             ins.append((pos, order, '\n' + text + '\n', ln - 1, spec.props, 'spec')); order += 1
     elif spec.spec or spec.ret:
         raise Unsupported('%s: @spec/@ret on a non-fn item' % spec.selector)
+    if spec.stub:
+        ins.append((it.body_close - base, order, ' unimplemented!() ', spec.line, spec.props, 'inline')); order += 1
     for side, nth, anchor, text, ln in spec.ats:
         rx = anchor_regex(anchor)
         ms = list(rx.finditer(item_src))
